@@ -201,7 +201,7 @@ Verdict execute(const Plan& plan, EventLog& log, Stats& st)
       // update_*() is a notification that the input changed (revision_points() then takes the current coordinates as
       // the new initial values x_0, which AdjustedUnknowns prints), not a pure cache flush: the reference gets it too
       apply_change(net, fmt("upd:%d", w)); O.changes.push_back(fmt("upd:%d", w));
-      log.line("%d o%lld update(%d)", n, s.arg(0) % nobj, w); st.add("ops.update"); st.nontrivial = true;
+      log.line("%d o%lld update(%d)", n, s.arg(0) % nobj, w); st.add("ops.update"); st.nontrivial = true; st.shape += fmt("net:upd%d,", w);
       st.state("hist", fmt("net/update%d/asked%d", w, std::min(O.asked, 2)));
     } else if (op == "chg") {
       int w = (int)(s.arg(1) % 6);
@@ -210,7 +210,7 @@ Verdict execute(const Plan& plan, EventLog& log, Stats& st)
       std::string c = w == 5 ? fmt("passive:%lld", s.arg(2) % 1000) : w == 0 ? "refine" : w == 1 ? "refcoord" : w == 2 ? "alg:" + (O.changes.empty() ? O.alg0 : O.alg0) : w == 3 ? std::string("alg:") + ALGS[s.arg(2) % 4] : "alg:" + O.alg0;
       Val r = guarded([&](Val&) { apply_change(net, c); });
       O.changes.push_back(c);
-      log.line("%d o%lld change %s %s", n, s.arg(0) % nobj, c.c_str(), r.exc.c_str()); st.add("ops.change"); st.nontrivial = true;
+      log.line("%d o%lld change %s %s", n, s.arg(0) % nobj, c.c_str(), r.exc.c_str()); st.add("ops.change"); st.nontrivial = true; st.shape += "net:" + c.substr(0, 7) + ",";
       st.state("hist", fmt("net/%s/asked%d", c.substr(0, 4).c_str(), std::min(O.asked, 2)));
       if (!r.exc.empty()) { st.add("fault.exception_survived"); }
     } else if (op == "q") {
@@ -232,6 +232,7 @@ Verdict execute(const Plan& plan, EventLog& log, Stats& st)
       if (!used.exc.empty()) st.add("fault.exception_survived");
       st.state("hist", fmt("net/%s/%s/asked%d/%s", O.alg0.c_str(), k.c_str(), std::min(O.asked, 3), used.exc.empty() ? "value" : "throw"));
       log.line("%d o%lld %s(%lld,%lld) = %s", n, s.arg(0) % nobj, k.c_str(), qa, qb, used.str().c_str());
+      st.shape += fmt("net-%s:%s%c,", O.alg0.c_str(), k.c_str(), used.exc.empty() ? 'v' : 't');
       const std::string BADREG = fmt("matvec:%d", (int)GNU_gama::Exception::BadRegularization);
       if (ref.exc == BADREG || ref.exc == "not-adjustable") { st.add("undefined_quantity_skipped"); n++; continue; }
       std::string where;
